@@ -243,3 +243,124 @@ fn c01_twin_must_fail() {
     add_parent_h::<true, true>(true);
     assert!(false, "twin: reachability witness");
 }
+
+// ---------------------------------------------------------------------------------------------
+// C01: one step of the ancestor-closure computation
+// ---------------------------------------------------------------------------------------------
+
+/// `create_cache_of_grandparents(3)` from a directly built state in which the parents of term 3 are
+/// already cached. Shape concrete, content symbolic: parents(3) = {1,2} (or {2}, {} per instance);
+/// term 1 has NA ancestors and term 2 has NB ancestors whose ids are arbitrary u32 (strictly
+/// ascending inside each set; they may coincide across the two sets, which is the diamond case, and
+/// may include the other parent). Their ancestor sets are also their direct parents, so they count
+/// as cached without a symbolic test (a symbolic cachedness makes symex walk the recursion with
+/// symbolic arena indices: not finished in 25 min).
+/// Post: all_parents(3) = parents(3) ∪ ancestors of those parents - as a strictly ascending set,
+/// decided extensionally with an arbitrary probe id - never 3 itself; nothing else changed.
+fn cache_step<const PM: u8, const NA: usize, const NB: usize>() {
+    let mut b: Builder<AllTerms> = small_builder(16, 4);
+    let a: [u32; NA] = kani::any();
+    let bb: [u32; NB] = kani::any();
+    let mut i = 0;
+    while i < NA {
+        kani::assume(a[i] != 1 && a[i] != 3 && (i == 0 || a[i - 1] < a[i]));
+        i += 1;
+    }
+    let mut i = 0;
+    while i < NB {
+        kani::assume(bb[i] != 2 && bb[i] != 3 && (i == 0 || bb[i - 1] < bb[i]));
+        i += 1;
+    }
+    let full_a: u8 = ((1u16 << NA) - 1) as u8;
+    let full_b: u8 = ((1u16 << NB) - 1) as u8;
+    b.hpo_terms.insert(term_lean(1, subset(&a, full_a), subset(&a, full_a), none()));
+    b.hpo_terms.insert(term_lean(2, subset(&bb, full_b), subset(&bb, full_b), none()));
+    b.hpo_terms.insert(term_lean(3, subset(&[1u32, 2], PM), none(), none()));
+    b.create_cache_of_grandparents(tid(3));
+    let t3 = b.hpo_terms.get(tid(3)).unwrap();
+    let got = t3.all_parents();
+    assert!(crate::term::group::verif_kani::is_sorted_set(got), "ancestor set strictly ascending");
+    let p: u32 = kani::any();
+    let mut expected = (PM & 1 != 0 && p == 1) || (PM & 2 != 0 && p == 2);
+    let mut i = 0;
+    while i < NA {
+        if PM & 1 != 0 && a[i] == p {
+            expected = true;
+        }
+        i += 1;
+    }
+    let mut i = 0;
+    while i < NB {
+        if PM & 2 != 0 && bb[i] == p {
+            expected = true;
+        }
+        i += 1;
+    }
+    assert!(got.contains(&tid(p)) == expected, "ancestors = parents plus the parents' ancestors: nothing missing, nothing else");
+    assert!(!got.contains(&tid(3)), "never the term itself");
+    assert!(is_subset_of(t3.parents(), &[1, 2], PM), "direct parents untouched");
+    assert!(t3.children().is_empty());
+    assert!(t3.parents_cached(), "the term counts as cached afterwards");
+    let t1 = b.hpo_terms.get(tid(1)).unwrap();
+    assert!(is_subset_of(t1.all_parents(), &a, full_a) && is_subset_of(t1.parents(), &a, full_a), "parent 1 untouched");
+    let t2 = b.hpo_terms.get(tid(2)).unwrap();
+    assert!(is_subset_of(t2.all_parents(), &bb, full_b) && is_subset_of(t2.parents(), &bb, full_b), "parent 2 untouched");
+    kani::cover!(NA > 0 && NB > 0 && a[0] == bb[0], "opt: shared grandparent (diamond)");
+    kani::cover!(NA > 0 && NB > 0 && a[NA - 1] == 2, "opt: one parent is also an ancestor of the other");
+    kani::cover!(expected && p > 3, "opt: probe is an inherited ancestor");
+    kani::cover!(!expected, "probe is not an ancestor");
+    core::mem::forget(b);
+}
+
+#[kani::proof]
+#[kani::stub(std::hash::RandomState::new, stub_random_state)]
+#[kani::unwind(8)]
+fn c01_cache_step_two_parents_2_2() {
+    cache_step::<0b11, 2, 2>();
+}
+#[kani::proof]
+#[kani::stub(std::hash::RandomState::new, stub_random_state)]
+#[kani::unwind(8)]
+fn c01_cache_step_two_parents_1_1() {
+    cache_step::<0b11, 1, 1>();
+}
+#[kani::proof]
+#[kani::stub(std::hash::RandomState::new, stub_random_state)]
+#[kani::unwind(8)]
+fn c01_cache_step_two_parents_2_0() {
+    cache_step::<0b11, 2, 0>();
+}
+#[kani::proof]
+#[kani::stub(std::hash::RandomState::new, stub_random_state)]
+#[kani::unwind(8)]
+fn c01_cache_step_second_parent_only() {
+    cache_step::<0b10, 2, 2>();
+}
+#[kani::proof]
+#[kani::stub(std::hash::RandomState::new, stub_random_state)]
+#[kani::unwind(8)]
+fn c01_cache_step_root() {
+    cache_step::<0b00, 1, 1>();
+}
+
+/// two-level step: the parent (2) of t (3) is NOT cached yet (it has the direct parent 1 but an empty
+/// ancestor set), so the call has to recurse once: 1 <- 2 <- 3, ancestors(1) = two arbitrary ids
+#[kani::proof]
+#[kani::stub(std::hash::RandomState::new, stub_random_state)]
+#[kani::unwind(8)]
+fn c01_cache_step_recursive_chain() {
+    let mut b: Builder<AllTerms> = small_builder(16, 4);
+    let a: [u32; 2] = kani::any();
+    kani::assume(a[0] < a[1] && a[0] > 3);
+    b.hpo_terms.insert(term_lean(1, subset(&a, 3), subset(&a, 3), none()));
+    b.hpo_terms.insert(term_lean(2, subset(&[1u32], 1), none(), none()));
+    b.hpo_terms.insert(term_lean(3, subset(&[2u32], 1), none(), none()));
+    b.create_cache_of_grandparents(tid(3));
+    let all: [u32; 4] = [1, 2, a[0], a[1]];
+    let t3 = b.hpo_terms.get(tid(3)).unwrap();
+    assert!(is_subset_of(t3.all_parents(), &all, 0b1111), "closure over two levels");
+    let t2 = b.hpo_terms.get(tid(2)).unwrap();
+    assert!(is_subset_of(t2.all_parents(), &all, 0b1101), "the uncached parent was completed on the way");
+    kani::cover!(a[1] == u32::MAX, "largest id as an ancestor");
+    core::mem::forget(b);
+}
